@@ -535,6 +535,35 @@ theorem rendersM_canon (m : Macro) : RendersM (canonMStmts m) m := by
       MStmt.cls?, MStmt.fixedMask?, MStmt.foreign?, MStmt.origin?, MStmt.source?, MStmt.eeq?,
       MStmt.size?, MStmt.symmetry?, MStmt.site?, MStmt.obs?, MStmt.density?, MStmt.pin?, MStmt.prop?, hpins]
 
+/-! ### the writer's order is one of the renderings -/
+
+theorem flatMap_toList {α : Type} (o : Option α) (w : α → List Tok) : o.toList.flatMap w = opt o w := by
+  cases o <;> simp [opt]
+
+/-- **the writer's own token sequence for a pin IS one of the renderings** the order theorems speak about: the
+    canonical statement list in the writer's order -/
+theorem wPin_is_rendering (p : Pin) : wPin p = wPinStmts p.name (canonPStmts p) := by
+  rw [wPin_eq]
+  simp only [wPinStmts, canonPStmts, List.flatMap_append, List.flatMap_map, wPStmt, flatMap_toList, List.append_assoc,
+    List.cons_append, List.nil_append]
+
+theorem flatMap_pins (ps : List Pin) :
+    (ps.map fun p => MStmt.pin p.name (canonPStmts p)).flatMap wMStmt = ps.flatMap wPin := by
+  induction ps with
+  | nil => rfl
+  | cons a r ih => simp only [List.map_cons, List.flatMap_cons, ih, wMStmt, wPin_is_rendering]
+
+/-- … and the writer's token sequence for a MACRO is the rendering `canonMStmts`: the canonical round trip of C05
+    (`macro_w`) is the instance "writer's order" of `c04_macro_reads_back` -/
+theorem wMacroToks_is_rendering (m : Macro) : wMacroToks m = wMacroStmts m.name (canonMStmts m) := by
+  have hp : (fun a : Pin => wPinStmts a.name (canonPStmts a)) = wPin := funext fun a => (wPin_is_rendering a).symm
+  have ho : wOrigin = fun a => kw "Origin" :: (wPt a ++ [semiTok]) := by funext a; simp [wOrigin]
+  have hd : wDensity' = fun a => kw "Density" :: (List.flatMap wDensityLayer a ++ [kw "End"]) := by funext a; simp [wDensity']
+  obtain ⟨name, pins, obs, cls, foreign, origin, size, symmetry, site, source, eeq, fixedMask, props, density⟩ := m
+  cases fixedMask <;> cases obs <;>
+    simp [wMacroToks, wMacroStmts, canonMStmts, List.flatMap_append, List.flatMap_map, flatMap_toList, wMStmt,
+      obsList, wObs, Function.comp_def, hp, ho, hd]
+
 /-! non-vacuity: a pin with USE before DIRECTION and a port between them, against the writer's order -/
 example : pin (wPinStmts ['a'] [.use "Signal", .port ⟨none, []⟩, .dir ("Input", false)] ++ []) =
     pin (wPinStmts ['a'] [.dir ("Input", false), .use "Signal", .port ⟨none, []⟩] ++ []) :=
